@@ -69,12 +69,20 @@ def gen_template(rng, nl="\n"):
         if r >= 2.0 or (b_pending_before is None and rng.random() < 0.08):
             # a construct with no message, then (often) an ordinary comment directly before the next message: the translator
             # comment written before the message-less construct must not travel, the ordinary comment is never a translator comment
-            b.add(rng.choice(["<h1>${title}</h1>", "% for item in items:\n  row\n% endfor", '<%%def name="q%d()">x</%%def>' % b.lineno, "% if flag:\n  y\n% endif"]))
+            opener = rng.random() < 0.35
+            if opener:
+                # the message-less construct is the line that opens a block: no text stands between it and what follows
+                open_kw = rng.choice(["if", "for"])
+                b.add("% if flag:" if open_kw == "if" else "% for item in items:")
+            else:
+                b.add(rng.choice(["<h1>${title}</h1>", "% for item in items:\n  row\n% endfor", '<%%def name="q%d()">x</%%def>' % b.lineno, "% if flag:\n  y\n% endif"]))
             b.pending_comment = None
-            if rng.random() < 0.7:
+            if opener or rng.random() < 0.7:
                 b.add(rng.choice(["## layout: two columns from here on", "## (ordinary remark, not for translators)", "##"]))
                 m = b.msg(); fn, c = b.call(m)
                 b.expect(b.lineno, fn, m); b.add(rng.choice(["<p>${@}</p>", "% if @:\n  z\n% endif", "<% w = @ %>"]).replace("@", c))
+            if opener:
+                b.add("% end" + open_kw)
         elif r < 0.10:
             b.add("plain text _('decoy text') here"); b.pending_comment = None if b_pending_before is None else b_pending_before
         elif r < 0.16:
